@@ -66,7 +66,7 @@ def replyOf (es : List Evt) : String :=
   match r with
   | some .ok => "ok"
   | some .refused => "refused"
-  | some (.info s) => "info:" ++ s.name
+  | some (.info _) => "info"
   | none => "none"
 
 structure DSt where
@@ -139,13 +139,10 @@ def parseSent (v : String) : List (Nat × SCmd) :=
       | _, _ => none
     | _ => none
 
-def parseReply (r : String) : Option Reply :=
+def parseReply (r : String) (st : NS) : Option Reply :=
   if r == "ok" then some .ok
   else if r == "refused" then some .refused
-  else if r.startsWith "info:" then
-    match parseNS ((r.drop 5).toString) with
-    | some s => some (.info s)
-    | none => some .refused
+  else if r == "info" then some (.info st)
   else none
 
 def parseObs (obs : String) : Option (String × Obs) := do
@@ -155,7 +152,7 @@ def parseObs (obs : String) : Option (String × Obs) := do
   let stops ← kvNat ws "stop"
   let sent := parseSent (← kv ws "sent")
   let st ← parseNS (← kv ws "st")
-  pure (r, { reply := parseReply r, pubs := pubs, stops := stops, sent := sent, st := st })
+  pure (r, { reply := parseReply r st, pubs := pubs, stops := stops, sent := sent, st := st })
 
 def specStep (m : Option Mon) (line : String) : Option Mon × String :=
   match line.splitOn "\t" with
@@ -172,11 +169,10 @@ def specStep (m : Option Mon) (line : String) : Option Mon × String :=
           | some sig => "VIOLATION " ++ sig ++ " " ++ op ++ " => " ++ obs)
       match ws.head?, m with
       | some "reset", _ =>
-        let kinds := parseKinds ws
-        -- a NodeService with an "ok" listener declared its support when it was asked
-        let declared := (List.range kinds.length).filter fun i =>
-          kinds[i]? == some Kind.nodeOk && o.sent.contains (i, SCmd.queryretire)
-        run (Mon.init kinds.length declared) .tick
+        let res := Mon.reset (parseKinds ws) o
+        (some res.1, match res.2 with
+          | none => "ok"
+          | some sig => "VIOLATION " ++ sig ++ " " ++ op ++ " => " ++ obs)
       | some "cmd", some m => run m (.cmd (parseCmd ((ws[1]?).getD "")))
       | some "qack", some m =>
         if r == "ack:none" then run m .qnone else run m (.qack (parseIdx ws) (r == "ack:ok"))
